@@ -22,6 +22,7 @@ type Pipe struct {
 
 	// Behaviour switches (read under mu).
 	OpenErr       error // returned by the next Open (then cleared)
+	OpenFailures  int   // the next OpenFailures calls of Open fail with ErrInjected
 	CloseErr      error // returned by the next Close (then cleared); the pipe stays open
 	CloseEndsRead bool  // Close makes blocked readers fail (like a socket); default true
 
@@ -31,6 +32,7 @@ type Pipe struct {
 
 	Written [][]byte
 	Opens   int
+	OpenOK  int
 	Closes  int
 	Reads   int
 }
@@ -50,6 +52,11 @@ func (p *Pipe) Open() error {
 		p.OpenErr = nil
 		return e
 	}
+	if p.OpenFailures > 0 {
+		p.OpenFailures--
+		return ErrInjected
+	}
+	p.OpenOK++
 	p.open = true
 	p.eof = false
 	p.readErr = nil
@@ -145,6 +152,17 @@ func (p *Pipe) Fail(err error) {
 	p.cond.Broadcast()
 	p.mu.Unlock()
 }
+
+// SetOpenFailures makes the next k Open calls fail.
+func (p *Pipe) SetOpenFailures(k int) { p.mu.Lock(); p.OpenFailures = k; p.mu.Unlock() }
+
+// SetOpenErr makes the next Open fail with err (nil clears).
+func (p *Pipe) SetOpenErr(err error) { p.mu.Lock(); p.OpenErr = err; p.mu.Unlock() }
+
+// SetCloseErr makes the next Close fail with err.
+func (p *Pipe) SetCloseErr(err error) { p.mu.Lock(); p.CloseErr = err; p.mu.Unlock() }
+
+func (p *Pipe) OpenOKCount() int { p.mu.Lock(); defer p.mu.Unlock(); return p.OpenOK }
 
 // Pending is the number of inbound bytes not yet read.
 func (p *Pipe) Pending() int { p.mu.Lock(); defer p.mu.Unlock(); return len(p.buf) }
